@@ -7,6 +7,13 @@ pair [T is not L, not an ancestor and not a descendant of L] x path form (absolu
 of L (none | other names | same names ...); combinations of two and three links [no target is, contains or
 lies inside a linking Section]; includes through file: URLs of documents saved under /verif/.work/c12.
 
+Naming dimension (NAMINGS): the same scenarios over documents whose Sections and Properties - targets, linking
+Sections, their children and ancestors, at every depth - are unnamed (name == id, reached in several ways), carry
+the id of another object as name, have siblings whose names differ only in letter case / surrounding blanks /
+Unicode normalisation, have a Property named like a sibling Section, have non-ASCII names or names with characters
+that mean something in paths, URLs or file formats; and over documents that were not built by hand but cloned or
+loaded from a file (ORIGINS).
+
 The oracle keeps snapshots (rcc.harness) and resolves stored paths with its own resolver on private fields.
 Nothing is written outside /verif/.work/c12 (the library's download cache is redirected there as well).
 """
@@ -18,6 +25,8 @@ import os
 import random
 import shutil
 import tempfile
+import unicodedata
+import uuid
 
 from rcc import harness as h
 
@@ -151,8 +160,14 @@ PROP_SETS = [
     [('p%d', 'boolean', [True]), ('q%d', 'string', ['single']), ('r%d', 'int', [3])],
 ]
 
-OWN = ['none', 'other-names', 'same-name-property', 'same-name-section', 'same-name-section-other-type']
+OWN = ['none', 'other-names', 'same-name-property', 'same-name-section', 'same-name-section-other-type',
+       'same-name-property-other-dtype']
 RESTORING = ('none', 'other-names')
+# further variants used with the naming modes: own children whose names nearly are names of the target's children
+# (restoration law applies: the names are different), own children named like a child of the *other* kind of the target
+# (the statement does not say whether such a name counts as used: nothing is demanded or forbidden for that child)
+NAMED_RESTORING = ('none', 'other-names', 'near-miss-names')
+NAMED_OWN = list(NAMED_RESTORING) + ['same-name-property', 'same-name-section', 'same-name-section-other-type', 'cross-kind-same-name']
 
 
 def spec_abs_path(shape, k):
@@ -203,23 +218,67 @@ def children_of(sec):
     return list(list.__iter__(sec._sections)), list(list.__iter__(sec._props))
 
 
-def add_own_children(link_sec, target, own):
+def add_own_children(link_sec, target, own, namer=None, salt=0):
     """Give the linking Section own children according to the variant. Returns False if not applicable."""
     tsecs, tprops = children_of(target)
     with h.quiet():
         if own == 'none':
             return True
+        if own == 'other-names' and namer is not None:
+            namer.own_children(link_sec, target)
+            return True
+        if own == 'near-miss-names':
+            if not tsecs and not tprops:
+                return False
+            taken = {c._name for c in tsecs + tprops} | {c._name for c in sum(children_of(link_sec), [])}
+            for i, c in enumerate([tsecs[salt % len(tsecs)]] if tsecs else []):
+                free = [n for n in near_misses(c._name) if n not in taken]
+                nm = free[(salt + i) % len(free)]
+                taken.add(nm)
+                s = odml.Section(name=nm, type=c.type, parent=link_sec, definition='own, nearly named like a child of the target')
+                odml.Property(name='inner own', values=[1], parent=s)
+            for i, c in enumerate([tprops[salt % len(tprops)]] if tprops else []):
+                free = [n for n in near_misses(c._name) if n not in taken]
+                nm = free[(salt + i + 1) % len(free)]
+                taken.add(nm)
+                odml.Property(name=nm, dtype=c._dtype, values=list(c._values)[:1] or None, parent=link_sec)
+            return True
+        if own == 'cross-kind-same-name':
+            mine_s, mine_p = children_of(link_sec)
+            done = False
+            both = {m._name for m in tsecs} & {m._name for m in tprops}
+            for c in [c for c in tsecs if c._name not in both and c._name not in {m._name for m in mine_s + mine_p}][:1]:
+                odml.Property(name=c._name, values=['own Property named like a child Section of the target'], parent=link_sec)
+                done = True
+            for c in [c for c in tprops if c._name not in both and c._name not in {m._name for m in mine_s + mine_p}][:1]:
+                odml.Section(name=c._name, type='t', parent=link_sec)
+                done = True
+            return done
         if own == 'other-names':
             s = odml.Section(name='own sec', type='t', parent=link_sec, definition='own')
             odml.Property(name='ownp', values=['o'], parent=s)
             odml.Property(name='own prop', values=[7], parent=link_sec)
             return True
+        mine_s, mine_p = children_of(link_sec)
         if own == 'same-name-property':
+            tprops = [c for c in tprops if c._name not in {m._name for m in mine_p}]
             if not tprops:
                 return False
             tp = tprops[0]
             odml.Property(name=tp._name, dtype=tp._dtype, values=list(tp._values)[:1] or None, parent=link_sec)
             return True
+        if own == 'same-name-property-other-dtype':
+            # an own Property whose values have nothing in common with those of the target's Property of that name
+            tprops = [c for c in tprops if c._name not in {m._name for m in mine_p}]
+            if not tprops:
+                return False
+            tp = tprops[0]
+            if tp._dtype in ('int', 'float', 'boolean'):
+                odml.Property(name=tp._name, dtype='date', values=['2020-01-02'], parent=link_sec)
+            else:
+                odml.Property(name=tp._name, dtype='int', values=[5], parent=link_sec)
+            return True
+        tsecs = [c for c in tsecs if c._name not in {m._name for m in mine_s}]
         if not tsecs:
             return False
         ts = tsecs[0]
@@ -227,6 +286,310 @@ def add_own_children(link_sec, target, own):
         s = odml.Section(name=ts._name, type=typ, parent=link_sec)
         odml.Property(name='inner own', values=[1], parent=s)
         return True
+
+
+# ---------------------------------------------------------------------------------------------
+# naming modes: how the Sections and Properties of a document got their names
+# ---------------------------------------------------------------------------------------------
+
+NAMINGS = ['unnamed', 'unnamed-children', 'foreign-id', 'case-blank', 'prop-like-section', 'non-ascii', 'special-chars']
+ORIGINS = ['built', 'cloned', 'loaded-JSON', 'loaded-XML', 'loaded-YAML']
+
+def _nfd(text):
+    return unicodedata.normalize('NFD', text)
+
+
+# (name, siblings that differ from it only in case / Unicode normalisation / compatibility form)
+NONASCII_SECS = [('Gr\u00f6\u00dfe', ['GR\u00d6SSE', _nfd('Gr\u00f6\u00dfe')]),
+                 ('\u00e9t\u00e9 \u20ac', [_nfd('\u00e9t\u00e9 \u20ac')]),
+                 ('\u65e5\u672c', ['\u2f47\u672c']),
+                 ('a\u0308', ['\u00e4', '\u00c4']),
+                 ('\U0001d707V', ['\u03bcV', '\u00b5V']),
+                 ('\u00df', ['ss', 'SS', '\u1e9e']),
+                 ('\u0130', ['i', 'I', 'i\u0307'])]
+NONASCII_EXTRA = [('\u212a%d', ['K%d', 'k%d']),
+                  ('\u00c5ngstr\u00f6m%d', ['\u212bngstr\u00f6m%d', _nfd('\u00c5ngstr\u00f6m') + '%d'])]
+NONASCII_PROPS = [('\u2126%d', ['\u03a9%d']), ('\u00e9%d', ['e\u0301%d', '\u00c9%d']),
+                  ('\u0434\u043b\u0438\u043d\u0430%d', [])]
+SPECIAL_SECS = ['a.b', '.a', 'a.', '..a', 'a:b', 'a#b', 'a?b=c&d']
+SPECIAL_EXTRA = ['%41', 'a\\b', '~', '*', 'a[0]', '<a>', '"a"', "it's", 'null', '1', 'True', '1e3', '-', '&amp;', 'a=b',
+                 '@a', '$a', 'a,b', 'a;b', '(a)', '{a}', '...']
+SPECIAL_PROPS = ['p:%d', '.p%d', '#p%d']
+
+
+def det_id(*key):
+    """Deterministic uuid for objects that must be created with a given id."""
+    return str(uuid.uuid5(uuid.NAMESPACE_URL, 'c12/' + '/'.join(str(x) for x in key)))
+
+
+def unnamed_section(route, key, parent, **attrs):
+    """A Section whose name is its id - four ways of getting there."""
+    route %= 4
+    if route == 0:
+        return odml.Section(parent=parent, **attrs)                            # neither name nor id given
+    if route == 1:
+        return odml.Section(name=None, oid=det_id(*key), parent=parent, **attrs)
+    if route == 2:
+        oid = det_id(*key)
+        return odml.Section(name=oid, oid=oid, parent=parent, **attrs)         # as it is stored in a file
+    sec = odml.Section(name='temporary ' + '-'.join(str(x) for x in key), parent=parent, **attrs)
+    sec.name = ''                                                               # an emptied name falls back to the id
+    return sec
+
+
+def unnamed_property(route, key, parent, **attrs):
+    route %= 4
+    if route == 0:
+        return odml.Property(parent=parent, **attrs)
+    if route == 1:
+        return odml.Property(name='', oid=det_id(*key), parent=parent, **attrs)
+    if route == 2:
+        oid = det_id(*key)
+        return odml.Property(name=oid, oid=oid, parent=parent, **attrs)
+    prop = odml.Property(name='temporary ' + '-'.join(str(x) for x in key), parent=parent, **attrs)
+    prop.name = None
+    return prop
+
+
+def case_blank_variants(base, blanks=True):
+    out = [base, base.upper()]
+    if base.capitalize() not in out:
+        out.append(base.capitalize())
+    if blanks:
+        out += [' ' + base, base + ' ']
+    return out
+
+
+def near_misses(name):
+    """Names that differ from `name` only in case, surrounding blanks or Unicode normalisation (and are different strings)."""
+    cands = [name + ' ', name.swapcase(), ' ' + name, name.upper(), unicodedata.normalize('NFD', name),
+             unicodedata.normalize('NFC', name), name.lower(), '\u00a0' + name]
+    out = []
+    for c in cands:
+        if c != name and c not in out:
+            out.append(c)
+    return out
+
+
+class Namer(object):
+    """Creates the objects of a document according to one naming mode. tag keeps deterministic ids of different documents apart."""
+
+    def __init__(self, mode, tag='d', blanks=True):
+        self.mode, self.tag, self.blanks = mode, tag, blanks
+
+    def _with_decoys(self, make, real, decoys, pos):
+        """Create `real` among its look-alike siblings; the real one is at position pos (mod number of siblings)."""
+        names = list(decoys)
+        names.insert(pos % (len(names) + 1), real)
+        made = None
+        for nm in names:
+            obj = make(nm, nm == real)
+            if nm == real:
+                made = obj
+        return made
+
+    # ---- the Sections of the forest shape
+    def section(self, k, parent, **attrs):
+        m = self.mode
+        if m == 'unnamed':
+            return unnamed_section(k, (self.tag, 's', k), parent, **attrs)
+        if m == 'foreign-id':       # the name is the id of another Section of the document (a child of the next one in pre-order)
+            return odml.Section(name=det_id(self.tag, 'x', k + 1), oid=det_id(self.tag, 's', k), parent=parent, **attrs)
+
+        def make(nm, is_real):
+            sec = odml.Section(name=nm, parent=parent, **attrs)
+            if not is_real:
+                odml.Property(name='decoy', values=[nm], parent=sec)
+            return sec
+        if m == 'case-blank':
+            variants = case_blank_variants(SEC_NAMES[k], self.blanks)
+            real = variants[k % len(variants)]
+            return self._with_decoys(make, real, [v for v in variants if v != real], k)
+        if m == 'non-ascii':
+            real, decoys = NONASCII_SECS[k % len(NONASCII_SECS)]
+            return self._with_decoys(make, real, decoys, k + 1)
+        if m == 'special-chars':
+            return make(SPECIAL_SECS[k % len(SPECIAL_SECS)], True)
+        return make(SEC_NAMES[k], True)
+
+    # ---- their Properties
+    def properties(self, sec, k):
+        m = self.mode
+        for j, (pn, dtype, vals) in enumerate(PROP_SETS[k % len(PROP_SETS)]):
+            attrs = dict(dtype=dtype, values=list(vals), unit='mV' if k % 2 else None, definition='pdef' if k % 3 == 0 else None)
+
+            def make(nm, is_real, attrs=attrs):
+                if is_real:
+                    return odml.Property(name=nm, parent=sec, **attrs)
+                return odml.Property(name=nm, values=['decoy of ' + nm], parent=sec)
+            if m == 'unnamed':
+                unnamed_property(k + j, (self.tag, 'p', k, j), sec, **attrs)
+            elif m == 'foreign-id':     # id of a sibling Section / of a sibling Property
+                name = det_id(self.tag, 'x', k) if j == 0 else det_id(self.tag, 'p', k, j - 1)
+                odml.Property(name=name, oid=det_id(self.tag, 'p', k, j), parent=sec, **attrs)
+            elif m == 'case-blank':
+                variants = case_blank_variants(pn % k, self.blanks)
+                real = variants[(k + j + 1) % len(variants)]
+                self._with_decoys(make, real, [v for v in variants if v != real], k + j)
+            elif m == 'non-ascii':
+                real, decoys = NONASCII_PROPS[j % len(NONASCII_PROPS)]
+                self._with_decoys(make, real % k, [d % k for d in decoys], k + j)
+            elif m == 'special-chars':
+                make(SPECIAL_PROPS[j % len(SPECIAL_PROPS)] % k, True)
+            else:
+                make(pn % k, True)
+
+    # ---- further children of every Section (so that every target and every linking Section has the feature below it)
+    def decorate(self, sec, k):
+        m, tag = self.mode, self.tag
+        if m in ('unnamed', 'unnamed-children'):
+            x = unnamed_section(k + 1, (tag, 'x', k), sec, type='extra', definition='unnamed child')
+            y = unnamed_section(k + 2, (tag, 'y', k), x)                       # no type given either
+            unnamed_property(k, (tag, 'xp', k), x, values=[k])
+            unnamed_property(k + 1, (tag, 'yp', k), y, values=['deep'])
+            unnamed_property(k + 3, (tag, 'sp', k), sec, values=['u', 'v'])
+            odml.Property(name='empty%d' % k, parent=x)                        # no values
+        elif m == 'foreign-id':
+            x = odml.Section(name=sec._id, oid=det_id(tag, 'x', k), type='extra', parent=sec)          # named with its parent's id
+            odml.Section(name=det_id(tag, 'x', k), oid=det_id(tag, 'y', k), type='extra', parent=x)    # the same one level down
+            z = odml.Section(oid=det_id(tag, 'z', k), type='extra', parent=sec)
+            z.new_id(det_id(tag, 'z2', k))                                     # formerly unnamed: the name is the previous id
+            odml.Property(name=det_id(tag, 'y', k), oid=det_id(tag, 'xp', k), values=[1], parent=x)    # id of a sibling Section
+            odml.Property(name=det_id(tag, 'z2', k), oid=det_id(tag, 'sp', k), values=['z'], parent=sec)
+        elif m == 'case-blank':
+            variants = case_blank_variants('x%d' % k, self.blanks)[:4]
+            for i, nm in enumerate(variants):
+                x = odml.Section(name=nm, type='extra', parent=sec)
+                if i != (k + 1) % len(variants):                               # a look-alike
+                    odml.Property(name='q', values=['decoy %d' % i], parent=x)
+                    continue
+                for j, inner in enumerate(case_blank_variants('y', self.blanks)[1:4]):
+                    y = odml.Section(name=inner, type='extra', parent=x)
+                    odml.Property(name='w', values=[10 * i + j], parent=y)
+                for j, inner in enumerate(case_blank_variants('q', self.blanks)[:3]):
+                    odml.Property(name=inner, values=['%d/%d' % (i, j)], parent=x)
+        elif m == 'prop-like-section':
+            for c in list(list.__iter__(sec._sections)):
+                odml.Property(name=c._name, values=['named like a child Section'], parent=sec)
+            odml.Property(name=sec._name, values=['named like its parent'], parent=sec)
+            x = odml.Section(name='both%d' % k, type='extra', parent=sec)
+            odml.Property(name='both%d' % k, values=[k], parent=sec)
+            odml.Section(name='in', type='extra', parent=x)
+            odml.Property(name='in', values=['i'], parent=x)
+            odml.Property(name='both%d' % k, values=['inside'], parent=x)
+        elif m == 'non-ascii':
+            real, decoys = NONASCII_EXTRA[k % len(NONASCII_EXTRA)]
+
+            def make(nm, is_real):
+                x = odml.Section(name=nm, type='extra/\u00fc', parent=sec, definition='Erkl\u00e4rung %s' % nm)
+                if not is_real:
+                    return x
+                odml.Section(name='\u00ff', type='extra', parent=x)
+                odml.Section(name='y\u0308', type='extra', parent=x)
+                odml.Property(name='\u2126', values=['\u2126'], parent=x, unit='\u00b5V')
+                odml.Property(name='\u03a9', values=['\u03a9'], parent=x)
+                return x
+            self._with_decoys(make, real % k, [d % k for d in decoys], k)
+        elif m == 'special-chars':
+            pool = SPECIAL_EXTRA
+            x = odml.Section(name=pool[(3 * k) % len(pool)], type='extra', parent=sec)
+            odml.Section(name=pool[(3 * k + 1) % len(pool)], type='extra', parent=sec)
+            y = odml.Section(name=pool[(3 * k + 2) % len(pool)], type='extra', parent=x)
+            odml.Property(name=pool[(3 * k + 1) % len(pool)], values=[1], parent=y)
+            for nm in pool[(3 * k) % len(pool):][:3]:
+                odml.Property(name=nm, values=[nm], parent=x)
+
+    # ---- own children of a linking Section under names the target does not use
+    def own_children(self, link_sec, target):
+        m = self.mode
+        if m in ('unnamed', 'unnamed-children'):
+            s = unnamed_section(1, (self.tag, 'own', link_sec._id), link_sec, type='t', definition='own')
+            unnamed_property(2, (self.tag, 'ownp', link_sec._id), s, values=['o'])
+            unnamed_property(0, (self.tag, 'ownq', link_sec._id), link_sec, values=[7])
+        elif m == 'foreign-id':         # named with the id of the target / of children of the target / of the document
+            tsecs, tprops = children_of(target)
+            mine = sum(children_of(link_sec), [])
+            taken = {c._name for c in tsecs + tprops + mine}
+            root = link_sec
+            while getattr(root, '_parent', None) is not None:
+                root = root._parent
+            free = [i for i in [target._id] + [c._id for c in tsecs + tprops] + [root._id, link_sec._id] if i not in taken]
+            s = odml.Section(name=free[0], type='t', parent=link_sec, definition='own')
+            odml.Property(name=link_sec._id, values=['o'], parent=s)
+            odml.Property(name=free[1], values=[7], parent=link_sec)
+        else:
+            flavour = {'non-ascii': 'eigen \u00e4\u00f6\u00fc', 'special-chars': 'own.:#?', 'case-blank': ' Own '}.get(m, 'own both')
+            s = odml.Section(name=flavour, type='t', parent=link_sec, definition='own')
+            odml.Property(name=flavour, values=['o'], parent=s)
+            odml.Property(name=flavour, values=[7], parent=link_sec)
+
+
+def build_named_doc(shape, namer, rich=True, k0=0):
+    """Like build_doc, the objects being created by `namer`. Returns (doc, [Section per pre-order index]).
+    k0: number of the first Section (two documents with different numbers share no names)."""
+    secs = []
+    with h.quiet():
+        doc = odml.Document(author='me', version='1')
+        counter = itertools.count(k0)
+
+        def add(parent, forest):
+            for sub in forest:
+                k = next(counter)
+                definition, reference = sec_attrs(k, rich)
+                s = namer.section(k, parent, type=['t', 'setup/daq'][k % 2], definition=definition, reference=reference)
+                secs.append(s)
+                namer.properties(s, k)
+                add(s, sub)
+                namer.decorate(s, k)
+        add(doc, shape)
+    return doc, secs
+
+
+def index_path(sec):
+    out = []
+    for s in chain(sec):
+        out.append([c is s for c in list.__iter__(s._parent._sections)].index(True))
+    return out
+
+
+def follow(doc, path):
+    node = doc
+    for i in path:
+        node = list(list.__iter__(node._sections))[i]
+    return node
+
+
+def has_padded_names(doc):
+    secs, props = h.walk(doc)
+    return any(o._name != o._name.strip() for o in secs + props)
+
+
+def transfer(doc, secs, origin, scratch):
+    """The same document obtained in another way: cloned, or saved to a file and loaded again.
+    Returns (document, the Sections corresponding to `secs`) or (None, None) if the transfer itself did not
+    deliver an equal document (not this property's business)."""
+    if origin == 'built':
+        return doc, secs
+    paths = [index_path(s) for s in secs]
+    if origin == 'cloned':
+        kind, other = h.call(doc.clone)
+        if kind == 'exc':
+            return None, None
+    else:
+        backend = origin.split('-')[1]
+        if backend == 'XML' and has_padded_names(doc):     # odML-XML does not keep surrounding blanks
+            backend = 'JSON'
+        fname = os.path.join(WORK, '%s.%s' % (scratch, backend.lower()))
+        kind, _res = h.call(odml.save, doc, fname, backend)
+        if kind == 'exc':
+            return None, None
+        kind, other = h.call(odml.load, fname, backend)
+        if kind == 'exc' or h.diff(h.snap(doc, ids=True, parent=False), h.snap(other, ids=True, parent=False)):
+            return None, None
+    try:
+        return other, [follow(other, p) for p in paths]
+    except IndexError:
+        return None, None
 
 
 # ---------------------------------------------------------------------------------------------
@@ -309,19 +672,28 @@ def content(obj):
 
 class Link(object):
     """One reference of the document under test, with what the oracle needs to know about it."""
-    def __init__(self, sec, target, how, own):
+    def __init__(self, sec, target, how, own, naming='plain', origin='built'):
         self.sec, self.target, self.how, self.own = sec, target, how, own
+        self.naming, self.origin = naming, origin
         tsecs, tprops = children_of(target)
         osecs, oprops = children_of(sec)
         self.orig_children = osecs + oprops
+        self.orig_ids = {id(c) for c in self.orig_children}
         used_s, used_p = {c._name for c in osecs}, {c._name for c in oprops}
-        self.expected = [('section', c) for c in tsecs if c._name not in used_s] + \
-                        [('property', c) for c in tprops if c._name not in used_p]
-        self.shared = [c for c in tsecs if c._name in used_s] + [c for c in tprops if c._name in used_p]
+        # children of the target whose name the linking Section uses for a child of the other kind only: the statement
+        # does not say whether that name is "already used" - no copy is demanded, none is forbidden
+        cross = [c for c in tsecs if c._name in used_p and c._name not in used_s] + \
+                [c for c in tprops if c._name in used_s and c._name not in used_p]
+        self.expected = [('section', c) for c in tsecs if c._name not in used_s and c._name not in used_p] + \
+                        [('property', c) for c in tprops if c._name not in used_p and c._name not in used_s]
+        self.shared = [c for c in tsecs if c._name in used_s] + [c for c in tprops if c._name in used_p] + cross
         tnames_s, tnames_p = {c._name for c in tsecs}, {c._name for c in tprops}
+        self.target_names = {'section': tnames_s, 'property': tnames_p}
         # original children that finalize must leave alone: those whose name the target does not use
-        self.keep_ids = {c._id for c in osecs if c._name not in tnames_s} | {c._id for c in oprops if c._name not in tnames_p}
+        tnames = tnames_s | tnames_p
+        self.keep_ids = {c._id for c in osecs + oprops if c._name not in tnames}
         self.target_before = h.snap(target)
+        self.type_clash = any(o._name == c._name and o.type != c.type for o in osecs for c in tsecs)
 
     @property
     def restoring(self):
@@ -329,16 +701,20 @@ class Link(object):
 
 
 def feature_of(links):
-    fs = sorted({'%s/%s/own-%s' % ('include' if l.how.startswith('include') else 'link', l.how, l.own) for l in links})
+    fs = sorted({'%s/%s/own-%s%s' % ('include' if l.how.startswith('include') else 'link', l.how, l.own,
+                                     '' if l.naming == 'plain' else ' names=' + l.naming) for l in links})
     return fs[0] if len(fs) == 1 else 'several: ' + ' + '.join(fs)
 
 
 def own_feature(links):
     """Stable label of the own-children variant that matters when resolution fails."""
     owns = sorted({l.own for l in links if not l.restoring}) or sorted({l.own for l in links})
-    if 'same-name-section-other-type' in owns:
+    if 'same-name-section-other-type' in owns or any(l.type_clash for l in links):
         return 'same-name-section-other-type'
-    return '+'.join(owns)
+    if 'same-name-property-other-dtype' in owns:
+        return 'same-name-property-inconvertible-values'
+    namings = sorted({l.naming for l in links} - {'plain'})
+    return '+'.join(owns) + (' names=' + '+'.join(namings) if namings else '')
 
 
 # ---------------------------------------------------------------------------------------------
@@ -358,14 +734,23 @@ def check_finalized(col, name, doc, links, frame_before, wit, stage):
                 col.fail(check=name + '/copies-present', cls={'clause': 'copies-present', 'feature': '%s %s' % (kind, feature_of([l]))},
                          witness=dict(wit, stage=stage, linking=abs_path(l.sec), child=c._name),
                          detail='linking Section lacks a copy of the target\'s %s %r (%s)' % (kind, c._name, why))
+        new = [('section', m) for m in secs if id(m) not in l.orig_ids] + [('property', m) for m in props if id(m) not in l.orig_ids]
+        strangers = [(kind, m._name) for kind, m in new if m._name not in l.target_names[kind]]
+        twice = sorted({(kind, m._name) for kind, m in new if sum(1 for k2, m2 in new if k2 == kind and m2._name == m._name) > 1})
+        if not l.restoring and (strangers or twice):
+            col.fail(check=name + '/only-copies-added', cls={'clause': 'only-copies-added', 'feature': feature_of([l])},
+                     witness=dict(wit, stage=stage, linking=abs_path(l.sec)),
+                     detail='new children of the linking Section that are not one copy of a child of the target: '
+                            'names the target does not use %r, added more than once %r' % (strangers, twice))
         if l.restoring:
-            have = {m._name for m in secs + props}
-            want = {c._name for c in l.orig_children} | {c._name for _, c in l.expected}
+            have = sorted([('section', m._name) for m in secs] + [('property', m._name) for m in props])
+            want = sorted([('section' if isinstance(c, BaseSection) else 'property', c._name) for c in l.orig_children] +
+                          [(kind, c._name) for kind, c in l.expected])
             if have != want:
                 col.fail(check=name + '/only-copies-added', cls={'clause': 'only-copies-added', 'feature': feature_of([l])},
                          witness=dict(wit, stage=stage, linking=abs_path(l.sec)),
-                         detail='children of the linking Section are %r; contract: own children + one copy per target child = %r'
-                                % (sorted(have), sorted(want)))
+                         detail='children of the linking Section are %r; contract: own children + one copy per target child = %r; '
+                                'surplus %r, lacking %r' % (have, want, [x for x in have if x not in want], [x for x in want if x not in have]))
         d = h.diff(l.target_before, h.snap(l.target))
         if d:
             col.fail(check=name + '/target-unchanged', cls={'clause': 'target-unchanged', 'feature': feature_of([l])},
@@ -415,12 +800,12 @@ def raw_tree(fname, backend):
                     'props': [c.findtext('name') for c in el.findall('property')]}
         return [rec(c) for c in root.findall('section')]
     if backend == 'JSON':
-        with open(fname) as f:
+        with open(fname, encoding='utf-8') as f:
             data = json.load(f)
     else:
         import yaml
-        with open(fname) as f:
-            data = yaml.safe_load(f)
+        with open(fname, encoding='utf-8') as f:
+            data = yaml.load(f, Loader=getattr(yaml, 'CSafeLoader', yaml.SafeLoader))
 
     def rec(d):
         return {'name': d.get('name'), 'definition': d.get('definition'), 'link': d.get('link'), 'include': d.get('include'),
@@ -485,6 +870,7 @@ def scenario(col, name, part, doc, links, wit, backend, cycles=2):
         return 'finalize-raised'
     check_finalized(col, name, doc, links, frame0, wit, 'finalize#1')
     if part == 'finalize':
+        once = _mask_link_text(h.snap(doc, ids=False, parent=False))
         # finalize again without clean in between must still satisfy the first sentence
         kind, res = h.call(doc.finalize)
         if kind == 'exc':
@@ -492,6 +878,13 @@ def scenario(col, name, part, doc, links, wit, backend, cycles=2):
                      witness=wit, detail='second finalize() raised %r' % (res,))
             return 'finalize-raised'
         check_finalized(col, name, doc, links, frame0, wit, 'finalize#2')
+        if all(l.restoring for l in links):
+            # every name of the target is in use now: a further finalize has nothing to add and may change nothing else
+            d = h.diff(once, _mask_link_text(h.snap(doc, ids=False, parent=False)))
+            if d:
+                col.fail(check=name + '/finalize-idempotent', cls={'clause': 'finalize-idempotent', 'feature': feature_of(links)},
+                         witness=dict(wit, stage='finalize#2'),
+                         detail='a second finalize() changed the resolved document (ids aside): %s' % d)
         return 'ok'
     content0 = h.snap(doc, ids=False, parent=False)
     for cyc in range(1, cycles + 1):
@@ -517,6 +910,8 @@ def scenario(col, name, part, doc, links, wit, backend, cycles=2):
     kind, res = h.call(doc.clean)
     if kind == 'ret':
         check_restored(col, name, doc, links, restore0, wit, 'clean#last')
+        _save_load(col, name, doc, links, original_model, dict(wit, stage='clean#last'),
+                   'JSON' if backend == 'XML' else 'XML', full=False)
     # resolving twice without a clean in between adds nothing new: one clean still restores the document
     k1, _r1 = h.call(doc.finalize)
     k2, _r2 = h.call(doc.finalize)
@@ -537,7 +932,7 @@ def _mask_link_text(frozen):
     return rec(frozen)
 
 
-def _save_load(col, name, doc, links, original_model, wit, backend):
+def _save_load(col, name, doc, links, original_model, wit, backend, full=True):
     fname = os.path.join(WORK, 'saved.' + backend.lower())
     kind, res = h.call(odml.save, doc, fname, backend)
     if kind == 'exc':
@@ -549,6 +944,8 @@ def _save_load(col, name, doc, links, original_model, wit, backend):
     if d:
         col.fail(check=name + '/file-has-reference-only', cls={'clause': 'file-has-reference-only', 'feature': diff_class(d)},
                  witness=dict(wit, backend=backend), detail='file saved after clean(): %s' % d)
+    if not full or (backend == 'XML' and has_padded_names(doc)):    # odML-XML does not keep surrounding blanks of a name
+        return
     # the link text in the file designates the target
     kind, loaded = h.call(odml.load, fname, backend)
     if kind == 'exc':
@@ -705,11 +1102,130 @@ def _build_include(shape, l, url, term, tpath, own, extra=()):
     return doc, links
 
 
+# ---- the same, over the naming modes and document origins -------------------------------------
+
+QUICK_ORIGINS = ['built', 'cloned', 'loaded-JSON', 'built', 'loaded-XML', 'cloned', 'built', 'loaded-YAML', 'cloned', 'loaded-JSON', 'built']
+
+
+def naming_link_scenarios(tier, seed, part):
+    """Every shape up to N Sections x admissible (L, T) x path form x naming mode; the own-children variant and the
+    origin of the document (built | cloned | loaded from a file of each format) rotate so that every (mode, variant)
+    and (mode, origin) pair occurs at several positions; thorough: full product with the variants (two origins each) for
+    the shapes below N Sections. Then sampled sets of two links; quick: a sample of single links in shapes of N+1 Sections."""
+    rnd = random.Random('c12-names-%s-%s' % (part, seed))
+    owns = list(NAMED_RESTORING) if part == 'restore' else list(NAMED_OWN)
+    max_secs = 3 if tier == 'quick' else 4
+    combo = 0
+    for shape in h.tree_shapes(max_secs):
+        nodes = count_nodes(shape)
+        full = tier != 'quick' and nodes < max_secs
+        for (l, t) in admissible_single(shape):
+            for how in ('absolute', 'relative'):
+                combo += 1
+                for i, naming in enumerate(NAMINGS):
+                    if full:
+                        picks = [(own, ORIGINS[(combo + i + oi + j * 2) % len(ORIGINS)]) for oi, own in enumerate(owns) for j in range(2)]
+                    elif tier == 'quick':
+                        picks = [(owns[(combo + i + j * 3) % len(owns)], QUICK_ORIGINS[(combo * 7 + i + j * 5) % len(QUICK_ORIGINS)])
+                                 for j in range(2 if part == 'finalize' else 1)]
+                    else:
+                        picks = [(owns[(combo + i + j * 3) % len(owns)], ORIGINS[(combo * 7 + i + j * 2) % len(ORIGINS)])
+                                 for j in range(2 if part == 'finalize' else 1)]
+                    for own, origin in picks:
+                        yield ({'shape': repr(shape), 'links': [[l, t, how, own]], 'naming': naming, 'origin': origin},
+                               (lambda shape=shape, l=l, t=t, how=how, own=own, naming=naming, origin=origin:
+                                _build_named_links(shape, [(l, t, how, own)], naming, origin)))
+        sets = admissible_sets(shape, 2)
+        limit = 3 if tier == 'quick' else 12
+        if len(sets) > limit:
+            sets = rnd.sample(sets, limit)
+        for links in sets:
+            for i, naming in enumerate(NAMINGS):
+                combo += 1
+                spec = [(l, t, rnd.choice(['absolute', 'relative']), rnd.choice(owns)) for l, t in links]
+                origin = (QUICK_ORIGINS if tier == 'quick' else ORIGINS)[(combo + i) % (11 if tier == 'quick' else 5)]
+                yield ({'shape': repr(shape), 'links': [list(x) for x in spec], 'naming': naming, 'origin': origin},
+                       (lambda shape=shape, spec=spec, naming=naming, origin=origin: _build_named_links(shape, spec, naming, origin)))
+    if tier == 'quick':
+        # deeper documents: a sample of the next size
+        big = [(shape, l, t) for shape in h.tree_shapes(max_secs + 1) if count_nodes(shape) == max_secs + 1
+               for (l, t) in admissible_single(shape)]
+        for n, (shape, l, t) in enumerate(rnd.sample(big, 28)):
+            naming, own, how = NAMINGS[n % len(NAMINGS)], owns[(n // 7 + n) % len(owns)], ('absolute', 'relative')[(n // 7) % 2]
+            origin = QUICK_ORIGINS[n % len(QUICK_ORIGINS)]
+            yield ({'shape': repr(shape), 'links': [[l, t, how, own]], 'naming': naming, 'origin': origin},
+                   (lambda shape=shape, l=l, t=t, how=how, own=own, naming=naming, origin=origin:
+                    _build_named_links(shape, [(l, t, how, own)], naming, origin)))
+
+
+def _build_named_links(shape, spec, naming, origin):
+    namer = Namer(naming)
+    doc, secs = build_named_doc(shape, namer)
+    for l, t, how, own in spec:
+        secs[l]._link = abs_path(secs[t]) if how == 'absolute' else rel_path(secs[l], secs[t])     # stored, not resolved
+    for l, t, how, own in spec:
+        if not add_own_children(secs[l], secs[t], own, namer, salt=l + t):
+            return None, None
+    doc, secs = transfer(doc, secs, origin, 'origin')
+    if doc is None:
+        return None, None
+    return doc, [Link(secs[l], secs[t], how, own, naming, origin) for l, t, how, own in spec]
+
+
+def naming_library_docs(env):
+    """One published document per naming mode: {mode: (url, loaded document, [target path or None])}."""
+    out = {}
+    for i, naming in enumerate(NAMINGS):
+        doc, _secs = build_named_doc((((),), ()), Namer(naming, tag='inc', blanks=False), k0=4)
+        url, term = env.publish(doc, 'named_inc_%d.xml' % i)
+        tsecs, _ = h.walk(term)
+        out[naming] = (url, term, [None] + [abs_path(s) for s in tsecs])
+    return out
+
+
+def naming_include_scenarios(env, tier, seed, part):
+    rnd = random.Random('c12-names-inc-%s-%s' % (part, seed))
+    libs = naming_library_docs(env)
+    owns = list(NAMED_RESTORING) if part == 'restore' else list(NAMED_OWN)
+    n = 0
+    for naming in NAMINGS:
+        url, term, targets = libs[naming]
+        for shape in [((),), ((), ()), (((),),)]:
+            for l in range(count_nodes(shape)):
+                k = 3 if tier == 'quick' else 10
+                for tpath in [targets[0]] + rnd.sample(targets[1:], min(k, len(targets) - 1)):
+                    n += 1
+                    own = owns[n % len(owns)]
+                    origin = QUICK_ORIGINS[n % len(QUICK_ORIGINS)] if tier == 'quick' else rnd.choice(ORIGINS)
+                    yield ({'shape': repr(shape), 'include': [l, os.path.basename(url), tpath, own], 'naming': naming, 'origin': origin},
+                           (lambda shape=shape, l=l, url=url, term=term, tpath=tpath, own=own, naming=naming, origin=origin:
+                            _build_named_include(shape, l, url, term, tpath, own, naming, origin)))
+
+
+def _build_named_include(shape, l, url, term, tpath, own, naming, origin):
+    text = url if tpath is None else url + '#' + tpath
+    namer = Namer(naming)
+    doc, secs = build_named_doc(shape, namer)
+    target = next(list.__iter__(term._sections), None) if tpath is None else resolve(term, tpath)
+    if target is None:          # the published document was damaged by an earlier scenario (reported there)
+        return None, None
+    secs[l]._include = text
+    if not add_own_children(secs[l], target, own, namer, salt=l):
+        return None, None
+    doc, secs = transfer(doc, secs, origin, 'origin')
+    if doc is None:
+        return None, None
+    lk = Link(secs[l], target, 'include-first-section' if tpath is None else 'include-path', own, naming, origin)
+    lk.include_text = text
+    return doc, [lk]
+
+
 # ---------------------------------------------------------------------------------------------
 # run_*
 # ---------------------------------------------------------------------------------------------
 
 BACKENDS = ['XML', 'JSON', 'YAML']
+SKIPPED = []        # scenarios that could not be built (variant not applicable to the target, ...): not counted as cases
 
 
 def _run(part, tier, seed):
@@ -718,20 +1234,30 @@ def _run(part, tier, seed):
             'path x own children of the linking Section (%s); sampled admissible sets of 2 and 3 links; includes of '
             'every Section (and of the default first Section) of three published documents from every Section of small '
             'documents; link + include together; distinct = (reference kind, path form, own-children variant, relative '
-            'position class of L and T, number of references, outcome)' % ', '.join(OWN if part == 'finalize' else RESTORING))
+            'position class of L and T, number of references, outcome). The same over shapes up to N-1 Sections with '
+            'every object named by one of the modes [%s] (every Section additionally owning children of that mode), own '
+            'children of L also with nearly the names of T\'s children%s, the document built | cloned | loaded from '
+            'XML/JSON/YAML; includes of Sections of one published document per naming mode'
+            % (', '.join(OWN if part == 'finalize' else RESTORING), ', '.join(NAMINGS),
+               ' or named like a child of the other kind' if part == 'finalize' else ''))
     col = Col(name, rule=rule, exhaustive=False)
     with Env() as env:
         n = 0
-        for wit, builder in itertools.chain(link_scenarios(tier, seed, part), include_scenarios(env, tier, seed, part)):
+        for wit, builder in itertools.chain(link_scenarios(tier, seed, part), include_scenarios(env, tier, seed, part),
+                                            naming_link_scenarios(tier, seed, part), naming_include_scenarios(env, tier, seed, part)):
             doc, links = builder()
             if doc is None:
+                SKIPPED.append(wit)
                 continue
             if part == 'restore' and not all(l.restoring for l in links):
                 continue
             backend = BACKENDS[n % 3]
+            if tier == 'quick' and 'naming' in wit and backend == 'YAML' and n % 7:      # the slowest format less often
+                backend = BACKENDS[n % 2]
             n += 1
             outcome = scenario(col, name, part, doc, links, wit, backend)
-            col.case(cls_key=(tuple(sorted((l.how, l.own, _position(l)) for l in links)), len(links), outcome),
+            col.case(cls_key=(tuple(sorted((l.how, l.own, _position(l)) for l in links)), len(links), outcome,
+                              links[0].naming, links[0].origin),
                      sample=json.dumps(wit))
     return col.result()
 
